@@ -501,7 +501,12 @@ func (mbox *MailboxView) staticNumSet(numSet imap.NumSet) imap.NumSet {
 			staticNumRange(&r.Start, &r.Stop, max)
 		}
 	case imap.UIDSet:
+		// "*" is the UID of the last message in the mailbox, which is not
+		// uidNext-1 once that message has been expunged
 		max := uint32(mbox.uidNext) - 1
+		if n := len(mbox.l); n > 0 {
+			max = uint32(mbox.l[n-1].uid)
+		}
 		for i := range numSet {
 			r := &numSet[i]
 			staticNumRange((*uint32)(&r.Start), (*uint32)(&r.Stop), max)
